@@ -49,7 +49,8 @@ PROPS = {
         "level": "exploration",
         "runs": {"quick": 4000, "thorough": 400000},
         "selftest_runs": 1500,
-        "needs_real": False,
+        "needs_real": True,
+        "validate_runs": {"quick": 48, "thorough": 400},
         "rule": (
             "each run draws a workspace of 1-4 generated modules on a tmpfs scratch folder and a history of <=60 client events: a chain of 1-6 target states "
             "(re-laid-out program, error-injected program at one of 7 phases, another program, back to base) realised as didOpen / incremental didChange "
@@ -62,7 +63,7 @@ PROPS = {
             "non-trivial = history with >=1 didChange that was not discarded; distinct = distinct digests of the full message transcript."
         ),
         "real": ["main_loop, refresh, notify (oal-lsp.rs, included source)", "RequestDispatcher/NotificationDispatcher", "all four handlers", "Workspace, Folder, Config (real oal.toml)", "DefaultFileSystem on tmpfs", "unicode conversions", "whole compiler pipeline"],
-        "stub": ["lsp-server stdio threads and framing (Connection::memory())", "initialize handshake", "the 1000 ms timer (decided by the simulator at select!)", "the editor (client model)", "std hash seed (interposed getrandom)"],
+        "stub": ["lsp-server stdio threads and framing (Connection::memory()) - except in the validation batch, which replays the same histories against the real oal-lsp process over stdio pipes and requires identical verdicts and transcripts", "initialize handshake (simulated runs)", "the 1000 ms timer (decided by the simulator at select!)", "the editor (client model)", "std hash seed (interposed getrandom)"],
         "assumptions": COMMON_ASSUME + [
             "client is protocol-legal and well-formed: no malformed JSON, no lone CR, no request for a document that neither is open nor exists",
             "main_loop keeps no state across iterations outside GlobalState (the simulator pauses it by unwinding at select! and re-enters it)",
@@ -73,7 +74,8 @@ PROPS = {
         "level": "exploration",
         "runs": {"quick": 1500, "thorough": 100000},
         "selftest_runs": 600,
-        "needs_real": False,
+        "needs_real": True,
+        "validate_runs": {"quick": 16, "thorough": 120},
         "rule": (
             "histories as in C15 (same schedule, hash-seed and edit space, no folder events) whose plan passes through renderings of generated multi-module programs; "
             "whenever the client's buffers+disk equal such a rendering that the real compiler accepts, a semantic checkpoint sends, for every identifier occurrence "
@@ -93,7 +95,8 @@ PROPS = {
         "level": "exploration",
         "runs": {"quick": 1500, "thorough": 100000},
         "selftest_runs": 600,
-        "needs_real": False,
+        "needs_real": True,
+        "validate_runs": {"quick": 16, "thorough": 120},
         "rule": (
             "histories as in C17; at each semantic checkpoint prepareRename is sent at every identifier occurrence and at blank positions; wherever a range is offered, rename to a fresh name "
             "(same @ sigil) is sent to the history server and its WorkspaceEdit is checked: valid ranges, pairwise non-overlapping, each covering exactly the old name, and the edited sources are "
